@@ -201,11 +201,18 @@ SetInput(v)  == cf.prim # "async" /\ v # inp /\ Ev(FALSE, FALSE, v, rst)
 AsyncAssert  == cf.prim = "async" /\ ~IsAsserted(cf.edge, inp) /\ Ev(FALSE, FALSE, 1 - inp, rst)
 AsyncRelease == cf.prim = "async" /\ IsAsserted(cf.edge, inp) /\ Ev(FALSE, FALSE, 1 - inp, rst)
 SetReset(r)  == cf.prim = "ff" /\ r # rst /\ Ev(FALSE, FALSE, inp, r)
+(* anything that is not an event of the primitive: a clock edge or reset of an unrelated domain  *)
+(* of the same design (e.g. "sync" next to the synchroniser's own domains), a change of the      *)
+(* operands of the input expression that leaves its value unchanged (the contracts speak about   *)
+(* the *value* of the input, whatever expression it is: a signal, ~x, a slice,                   *)
+(* ResetSignal("sync"), ResetSignal("sync") | req).  It must be invisible.                       *)
+Unrelated    == cf.prim \in {"ff", "async", "pulse"} /\ Ev(FALSE, FALSE, inp, rst)
 
 AllVals == 0..(2 ^ (CHOOSE w \in Widths \cup {1} : \A x \in Widths : x <= w) - 1)   \* constant: lets TLC name the actions
 Next == \/ \E v \in AllVals : IEdge(v) \/ OEdge(v) \/ BothEdges(v) \/ SetInput(v)
         \/ AsyncAssert \/ AsyncRelease
         \/ \E r \in {0, 1} : SetReset(r)
+        \/ Unrelated
 Spec == Init /\ [][Next]_vars
 
 Constr == Full => TLCGet("level") <= (IF cf.prim = "ff" /\ cf.width > 1 THEN MaxDepth2 ELSE MaxDepth)
@@ -224,6 +231,8 @@ FFWindow == (cf.prim = "ff" /\ ~Full) => Len(c.hist) <= cf.stages
 AsyncImmediate == [][(cf.prim = "async" /\ IsAsserted(cf.edge, inp')) => Out' = 1]_vars
 AsyncNoSpontaneous == [][(cf.prim = "async" /\ Out = 0 /\ ~IsAsserted(cf.edge, inp')) => Out' = 0]_vars
 AsyncCounts == cf.prim = "async" => (c.cnt \in 0..cf.stages /\ (IsAsserted(cf.edge, inp) => c.cnt = 0))
+
+UnrelatedInvisible == [][Unrelated => (Out' = Out /\ c' = c /\ m' = m)]_vars
 
 (* pulse conservation over counters *)
 PulseConservation == (cf.prim = "pulse" /\ Full) =>
